@@ -17,13 +17,13 @@ CLAIMS = {
               'populations, all registers); members of a group are exactly the lights reporting it; operands joined by `and` '
               'share one delay. Forward simulation (Lang/Simulation.v, Simulation2.v, Simulation3.v, SimulationTop.v) is proved for every program made of register '
               'settings, unit switches, assignments, print / println, wait, set / on / off of all lights or lists of lights, groups and '
-              'locations named by strings, macros or variables, if / else, begin-end blocks, `repeat while`, counted `repeat n`, `repeat with v from a to b`, `repeat n with v from a to b`, `repeat n with v cycle`, `repeat all / group / location as x [with ...]` (body without return) and endless `repeat` loops, `break`, routine definitions at the top level, calls `f a b ...` of routines (arguments ordinary values; routines may call each other and themselves, to any depth) and `return`, nested to any depth -- values any ordinary rvalue or call-free numeric expression of any size -- and every population: WHENEVER the reference '
+              'locations named by strings, macros or variables, if / else, begin-end blocks, `repeat while`, counted `repeat n`, `repeat with v from a to b`, `repeat n with v from a to b`, `repeat n with v cycle`, `repeat all / group / location as x [with ...]`, `repeat in ... and ... as x [with ...]` (bodies without return) and endless `repeat` loops, `break`, routine definitions at the top level, calls `f a b ...` of routines (arguments ordinary values; routines may call each other and themselves, to any depth) and `return`, nested to any depth -- values any ordinary rvalue or call-free numeric expression of any size -- and every population: WHENEVER the reference '
               'semantics runs the source to its end with events evs, the code of the compiler model, loaded and run on the machine model '
               'from the initial state, finishes with exactly evs (and statement by statement for code anywhere in an image, inside any enclosing loops). For '
-              'the `repeat in <list>` loops, calls inside expressions, zones and matrix blocks the agreement of reference semantics, compiler, loader and machine models with each '
+              'calls inside expressions, zones and matrix blocks the agreement of reference semantics, compiler, loader and machine models with each '
               'other and with the implementation is established per run by the oracle and correspondence comparisons, i.e. by testing, over '
               '~400 (quick) / ~6000 (thorough) scripts.'),
-        note=COMMON_NOTE + 'Partial: the simulation theorem covers programs with if / else, `repeat while`, `repeat n`, endless `repeat`, the three loop forms with an index variable, the loops over all lights / groups / locations, `break`, routines (recursive ones too) called as statements and `return` (no `repeat in <list>`, no calls inside expressions, no return out of a loop over lights) only; arithmetic outside the modelled range (libm, rgb, ints beyond 2^53 with floats) is skipped and counted; device layer = repository fakes.',
+        note=COMMON_NOTE + 'Partial: the simulation theorem covers programs with if / else, `repeat while`, `repeat n`, endless `repeat`, the three loop forms with an index variable, the loops over all lights / groups / locations, `break`, routines (recursive ones too) called as statements and `return` (no calls inside expressions, no return out of a loop over lights) only; arithmetic outside the modelled range (libm, rgb, ints beyond 2^53 with floats) is skipped and counted; device layer = repository fakes.',
         technique='Coq reference semantics + machine/compiler models; lemmas by induction; oracle and correspondence by vm_compute evaluation of generated cases',
         design='DESIGN.md 7 C01'),
     'C05': dict(
@@ -69,7 +69,7 @@ CLAIMS = {
               'ends the call from any depth and delivers its value. Refinement of the machine\'s call stack to that scoping: reads '
               '(get_variable), writes (put_variable on settled frames), loop frames transparent, a frame under construction invisible, '
               'return pops exactly the loop frames of the current call. Whole calls: for every call statement of a routine, all routine bodies covered, recursion and mutual recursion included (Lang/Simulation3.v, call_simulation, by induction on the fuel of the reference run; C01 for whole programs) the compiled CTX / PARAM / JSR / END_CTX sequence and the routine code run on the machine model exactly as the reference semantics says, arguments evaluated in the caller\'s scope, parameters by value in the routine\'s own dictionary, return from any loop depth, the caller\'s stack and frames as they were. Oracle/correspondence runs on routine-heavy generated scripts.'),
-        note=COMMON_NOTE + 'The link from the refinement lemmas to whole-program behaviour is proved for call statements of routines with covered bodies, recursive or not (C01 lists the covered statement forms); calls inside expressions and `repeat in <list>` loops are compared per run.',
+        note=COMMON_NOTE + 'The link from the refinement lemmas to whole-program behaviour is proved for call statements of routines with covered bodies, recursive or not (C01 lists the covered statement forms); calls inside expressions are compared per run.',
         technique='Coq refinement lemmas (call stack vs scope spec) + induction on fuel over the reference semantics; oracle and correspondence runs',
         design='DESIGN.md 7 C03'),
     'C04': dict(
@@ -77,9 +77,9 @@ CLAIMS = {
               'counts not at all; the two-bound form computes count |b-a|+1 and step +-1 and its values are exactly a..b in order either '
               'direction; interpolating and cycle forms over exact rationals: v_k = a + k*incr, both ends included, s + k*turn/n; while '
               're-tests before every pass; break ends the innermost loop only; light/group/location name lists and member lists are '
-              'strictly sorted, duplicate free and exact, so each name is bound once in name order. On the compiled code: for `repeat with v from a to b`, `repeat n with v from a to b` and `repeat n with v cycle [start]` with a covered body the LOOP / count, first, last and increment arithmetic / test / body / count-down and step / END_LOOP sequence run on the machine model ends where the reference semantics says with the same events and variable values, also when the body breaks or returns (Lang/RangeLoop.v, Lang/CountWith.v, indexed_loop_simulation); for `repeat all as x`, `repeat group as g`, `repeat location as l` with or without a `with` clause the scanning code (DISC / DNEXT from the last name to the first) leaves exactly the sorted names on the stack, first on top, and their number in the counter, and every pass binds the next name, each once, in name order, for every population including the empty one and one with an empty label (Lang/LightScan.v, Lang/LightLoop.v, light_loop_simulation), as C01 proves for `repeat n`, `repeat while` and plain `repeat`. Oracle/correspondence runs on '
+              'strictly sorted, duplicate free and exact, so each name is bound once in name order. On the compiled code: for `repeat with v from a to b`, `repeat n with v from a to b` and `repeat n with v cycle [start]` with a covered body the LOOP / count, first, last and increment arithmetic / test / body / count-down and step / END_LOOP sequence run on the machine model ends where the reference semantics says with the same events and variable values, also when the body breaks or returns (Lang/RangeLoop.v, Lang/CountWith.v, indexed_loop_simulation); for `repeat all as x`, `repeat group as g`, `repeat location as l` and `repeat in <lights, groups, locations joined by and> as x` (sources compiled last to first; a group or location contributes its members, DISCM / DNEXTM) with or without a `with` clause the scanning code (DISC / DNEXT from the last name to the first) leaves exactly the sorted names on the stack, first on top, and their number in the counter, and every pass binds the next name, each once, in name order, for every population including the empty one and one with an empty label (Lang/LightScan.v, Lang/LightLoop.v, light_loop_simulation), as C01 proves for `repeat n`, `repeat while` and plain `repeat`. Oracle/correspondence runs on '
               'loop-heavy generated scripts (every form, nesting, break positions, populations from 0 lights).'),
-        note=COMMON_NOTE + 'Value-sequence closed forms are over exact arithmetic (Q / Z); binary64 accumulation of the increment is what the runs compare bit for bit. Index-variable binding by the compiled code is proved for the three forms with an index variable, light-variable binding for `repeat all / group / location`; `repeat in <list of lights, groups, locations>` is covered by the runs, not yet by a theorem.',
+        note=COMMON_NOTE + 'Value-sequence closed forms are over exact arithmetic (Q / Z); binary64 accumulation of the increment is what the runs compare bit for bit. Index-variable binding by the compiled code is proved for the three forms with an index variable, light-variable binding for all four loops over lights (`repeat all / group / location / in <list>`).',
         technique='Coq proofs by induction on the iteration count over the reference semantics; closed forms over Q; oracle and correspondence runs',
         design='DESIGN.md 7 C04'),
     'C12': dict(
